@@ -134,7 +134,7 @@ class View:
     @property
     def items(self) -> list:
         o = self._obj()
-        if o.kind not in ("list", "userlist"):
+        if o.kind not in ("list", "userlist", "iter"):
             raise ClauseError(f"{self._ref} is not a list")
         return [self._env.wrap(x, self._live, self._heap) for x in o.get("items")]
 
